@@ -393,3 +393,168 @@ Proof.
   eexists _, _. split; [vm_compute; reflexivity|]. split; [vm_compute; reflexivity|]. split; vm_compute; reflexivity.
 Qed.
 
+
+(* ------------------------------------------------------------------ valid programs lie inside the writer domain *)
+From PV Require Proofs.ParserComplete2 Proofs.ParserComplete6 Proofs.ValidDomain1 Proofs.ValidDomain6 Proofs.ValidDomainLex.
+Import ParserComplete2 ValidDomain1.
+
+(* "For every valid program `p8tool luafmt` succeeds".  The theorems above are stated for parser trees inside the
+   writer domain; C08_complete is stated for token lists with a derivation g in the reference grammar
+   (Spec/LuaGrammar.v).  Here the two meet: the tree the parser model builds for a token list that has a derivation is
+   inside the domain.  Hypotheses on the derivation:
+     derives ts g, line_scoped ts g   g is a derivation of ts whose one-line ifs own the rest of their lines
+     excl g                           the side condition of C08_complete (Proofs/ParserComplete2.v): Lua's call
+                                      ambiguity (a statement starting with `(` follows a `;` or begins its block), the
+                                      body of a one-line if is not empty and does not begin with a do-block - finding
+                                      C09-shortif-do-body-assert / C08-shortif-do-body: `if (c) do ... end` is read as
+                                      `if (c) then ... end`, C09_aligned_if_do_refuted -, the else part of a one-line if
+                                      holds a statement
+     g_no_paren_suffix g              no call / index / field / method suffix is applied to a parenthesised expression
+                                      (Proofs/ValidDomain1.v) - finding C09-paren-suffix-assert,
+                                      C09_aligned_paren_prefix_refuted
+   and one hypothesis on the tokens: plain_tokens ts.  It does not follow from the derivation (the grammar reads class
+   and data of a token, keywords case-insensitively; the writers re-spell the code): it is a fact about the lexer,
+   C09_lexer_plain_tokens below.  `strict`, `no_if_do` and `no_paren_prefix` do follow: C09_valid_tree_in_domain.
+   Proof: Proofs/ValidDomain1..6.v re-run the completeness proof of C08 with the relation "the tree denotes the
+   derivation AND lies in the domain"; `denotes g (view root)` alone cannot give it, the view forgets the hidden
+   keyword leaves and the parentheses the domain conditions speak about. *)
+Theorem C09_valid_tree_in_domain : forall ts g,
+  derives ts g = true -> line_scoped ts g = true -> excl g = true -> g_no_paren_suffix g = true ->
+  exists root e, lua_parse ts = Ok (root, e) /\ consumed ts e = true /\ denotes g (view root) = true /\
+                 strict root = true /\ no_if_do ts root = true /\ no_paren_prefix root = true.
+Proof. exact ValidDomain6.parse_in_domain. Qed.
+Print Assumptions C09_valid_tree_in_domain.
+
+Theorem C09_valid_in_domain : forall ts g,
+  derives ts g = true -> line_scoped ts g = true -> excl g = true -> g_no_paren_suffix g = true ->
+  plain_tokens ts = true ->
+  exists root e, lua_parse ts = Ok (root, e) /\ consumed ts e = true /\ writable ts root = true.
+Proof. exact ValidDomain6.valid_in_domain. Qed.
+Print Assumptions C09_valid_in_domain.
+
+(* plain_tokens is a fact about the lexer: for every source of the reference dialect the tokens of the lexer model, as
+   the parser and the writers see them, have code = data for keyword / symbol / name / label tokens, keywords are
+   lower case (an upper-case word is a name) and a label is `::name::` *)
+Theorem C09_lexer_plain_tokens : forall src ss lts,
+  Forall byte src -> LuaLex.spec_lex src = Some ss -> Lexer.model_lex [src] = Ok lts ->
+  plain_tokens (map LexToken.lex_token lts) = true.
+Proof. exact ValidDomainLex.lexer_plain. Qed.
+Print Assumptions C09_lexer_plain_tokens.
+
+Theorem C09_valid_source_in_domain : forall src ss lts g,
+  Forall byte src -> LuaLex.spec_lex src = Some ss -> Lexer.model_lex [src] = Ok lts ->
+  derives (map LexToken.lex_token lts) g = true -> line_scoped (map LexToken.lex_token lts) g = true -> excl g = true ->
+  g_no_paren_suffix g = true ->
+  exists root e, lua_parse (map LexToken.lex_token lts) = Ok (root, e) /\ consumed (map LexToken.lex_token lts) e = true /\
+                 writable (map LexToken.lex_token lts) root = true.
+Proof. exact ValidDomainLex.valid_source_in_domain. Qed.
+Print Assumptions C09_valid_source_in_domain.
+
+(* the property for valid programs, for the models: for every source of the reference dialect whose lexer tokens have a
+   derivation (within the stated conditions) the parser model reads them to the end, luafmt (every indent width) SUCCEEDS
+   - no AssertionError / IndexError / AttributeError / ParserError -, the text it writes is again in the dialect, the
+   lexer model reads it, and the whole instance predicate of the monitor holds with valid = true: consumed, the same
+   code view (same significant tokens in order with identical spelling, same comments up to white space, token count
+   unchanged) and the same line breaks between code tokens. *)
+Theorem C09_valid_programs : forall w src ss lts g,
+  Forall byte src -> LuaLex.spec_lex src = Some ss -> Lexer.model_lex [src] = Ok lts ->
+  derives (map LexToken.lex_token lts) g = true -> line_scoped (map LexToken.lex_token lts) g = true -> excl g = true ->
+  g_no_paren_suffix g = true ->
+  exists root e out ss' lts',
+    lua_parse (map LexToken.lex_token lts) = Ok (root, e) /\
+    writer_text (fmt_spaces w) (map LexToken.lex_token lts) (view root) = Ok out /\ Forall byte out /\
+    LuaLex.spec_lex out = Some ss' /\ Lexer.model_lex [out] = Ok lts' /\
+    SameCode.nl_before (map LexToken.lex_token lts') = SameCode.nl_before (map LexToken.lex_token lts) /\
+    HoldsC09.holds_C09 (map LexToken.lex_token lts) root e true (Some (map LexToken.lex_token lts')) = true.
+Proof. exact ValidDomainLex.luafmt_valid. Qed.
+Print Assumptions C09_valid_programs.
+
+(* the same for the echo writer LuaASTEchoWriter *)
+Theorem C09_valid_programs_echo : forall src ss lts g,
+  Forall byte src -> LuaLex.spec_lex src = Some ss -> Lexer.model_lex [src] = Ok lts ->
+  derives (map LexToken.lex_token lts) g = true -> line_scoped (map LexToken.lex_token lts) g = true -> excl g = true ->
+  g_no_paren_suffix g = true ->
+  exists root e out ss' lts',
+    lua_parse (map LexToken.lex_token lts) = Ok (root, e) /\
+    writer_text echo_spaces (map LexToken.lex_token lts) (view root) = Ok out /\ Forall byte out /\
+    LuaLex.spec_lex out = Some ss' /\ Lexer.model_lex [out] = Ok lts' /\
+    SameCode.nl_before (map LexToken.lex_token lts') = SameCode.nl_before (map LexToken.lex_token lts) /\
+    HoldsC09.holds_C09 (map LexToken.lex_token lts) root e true (Some (map LexToken.lex_token lts')) = true.
+Proof. exact ValidDomainLex.echo_valid. Qed.
+Print Assumptions C09_valid_programs_echo.
+
+(* the two conditions on the derivation are needed, and each excludes its finding:
+   `(f or g)(x)` has a derivation inside excl whose call suffix sits on a parenthesised expression - the walk raises
+   (C09_aligned_paren_prefix_refuted);  `if (a) do x=1 end` has a derivation - a one-line if whose body is a do-block -
+   without such a suffix, outside excl - the walk raises (C09_aligned_if_do_refuted) *)
+Definition C09_paren_prefix_deriv : tree :=
+  match lua_parse C09_paren_prefix_tokens with Ok (root, _) => ValidDomainLex.deriv_of_tree root | Err _ => PNone end.
+Definition C09_if_do_deriv : tree :=
+  let ex t := Node tExpValue 0 0 false [t] in
+  let nm i c := Node tVarName 0 0 false [Tok i (mkTok CName 0 c c)] in
+  Node tChunk 0 0 false [Lst [
+    Node tStatIf 0 0 true [Kw 0; Lst [Lst [Paren 2 4 (ex (nm 3 [97]));
+      Node tChunk 0 0 false [Lst [
+        Node tStatDo 0 0 false [Kw 6;
+          Node tChunk 0 0 false [Lst [
+            Node tStatAssignment 0 0 false [Node tVarList 0 0 false [Lst [nm 8 [120]]]; Tok 9 (mkTok CSymbol 0 [61] [61]);
+                                            Node tExpList 0 0 false [Lst [ex (Tok 10 (mkTok CNumber 0 [49] [49]))]]]]];
+          Kw 12]]]]]]]].
+
+Example C09_conditions_needed :
+  (derives C09_paren_prefix_tokens C09_paren_prefix_deriv = true /\ line_scoped C09_paren_prefix_tokens C09_paren_prefix_deriv = true /\
+   excl C09_paren_prefix_deriv = true /\ plain_tokens C09_paren_prefix_tokens = true /\
+   g_no_paren_suffix C09_paren_prefix_deriv = false /\ C09_refutes C09_paren_prefix_tokens = true) /\
+  (derives C09_if_do_tokens C09_if_do_deriv = true /\ line_scoped C09_if_do_tokens C09_if_do_deriv = true /\
+   g_no_paren_suffix C09_if_do_deriv = true /\ plain_tokens C09_if_do_tokens = true /\
+   excl C09_if_do_deriv = false /\ C09_refutes C09_if_do_tokens = true).
+Proof. repeat split; vm_compute; reflexivity. Qed.
+
+(* non-vacuity: a program with every statement kind - local / global assignment, compound assignment, call (with a
+   string argument), do, while, repeat, if with elseif and else, a one-line if with else and one whose body is `break`,
+   numeric and generic for, function with a dotted method name, local function with varargs, goto, label, return -,
+   a parenthesised expression WITHOUT suffix `(a+1)*2`, a table with all three field forms and a trailing separator,
+   and comments of all three kinds (`--`, `//`, a `--[[ ]]` comment over two lines at the end of the one-line if)
+   satisfies every hypothesis of C09_valid_programs; its derivation is the parser model's tree with the operator
+   nests flattened (142 leaves, 2 one-line ifs); luafmt (width 2) changes the text *)
+Definition C09_valid_src : list Z := unBS "-- header
+local t={1,x=2,[""k""]=3;}
+local function f(a,...) return (a+1)*2 end
+function t.m:g(b) self.x=b // c2
+end
+for i=1,3 do t.x+=i end
+for k,v in pairs(t) do f(k) end
+while x<3 do x=x+1 if (x==2) break
+end
+repeat x-=1 until x<=0
+if x then y=1 elseif z then y=2 else y=3 end
+if (y) f(y) else y=-y --[[ block
+ comment ]]
+do goto done end
+::done::
+f""s""
+return t
+"%bs.
+
+Definition C09_valid_ts : list token :=
+  match Lexer.model_lex [C09_valid_src] with Ok lts => map LexToken.lex_token lts | Err _ => [] end.
+Definition C09_valid_g : tree :=
+  match lua_parse C09_valid_ts with Ok (root, _) => ValidDomainLex.deriv_of_tree root | Err _ => PNone end.
+
+Example C09_valid_programs_nonvacuous :
+  exists ss lts,
+    Forall byte C09_valid_src /\ LuaLex.spec_lex C09_valid_src = Some ss /\ Lexer.model_lex [C09_valid_src] = Ok lts /\
+    derives (map LexToken.lex_token lts) C09_valid_g = true /\ line_scoped (map LexToken.lex_token lts) C09_valid_g = true /\
+    excl C09_valid_g = true /\ g_no_paren_suffix C09_valid_g = true /\
+    length (short_ifs C09_valid_g) = 2%nat /\ length (leaves C09_valid_g) = 142%nat /\
+    exists root e out,
+      lua_parse (map LexToken.lex_token lts) = Ok (root, e) /\
+      writer_text (fmt_spaces 2) (map LexToken.lex_token lts) (view root) = Ok out /\ zlist_eqb out C09_valid_src = false.
+Proof.
+  eexists _, _. split.
+  { apply Forall_forall. intros x Hx. apply byteb_spec. revert x Hx. apply forallb_forall. vm_compute. reflexivity. }
+  split; [vm_compute; reflexivity|]. split; [vm_compute; reflexivity|]. split; [vm_compute; reflexivity|].
+  split; [vm_compute; reflexivity|]. split; [vm_compute; reflexivity|]. split; [vm_compute; reflexivity|].
+  split; [vm_compute; reflexivity|]. split; [vm_compute; reflexivity|].
+  eexists _, _, _. split; [vm_compute; reflexivity|]. split; vm_compute; reflexivity.
+Qed.
